@@ -279,8 +279,8 @@ int main(int argc, char **argv) {
   std::vector<Cfg> cfgs;
   for (int tool = 0; tool < (int)T.size(); tool++)
     for (int nt : {2, 3})
-      for (std::string extra : {"", "--nframes 2", "--first-frame 2", "--first-frame 2 --nframes 2", "--nframes 1", "--block-length 2", "--block-length 1 --nframes 3", "--begin 2", "--begin 1 --nframes 2"}) {
-        if (extra.find("--begin") != std::string::npos && (!thorough || tool == 2)) continue;  // time selection: thorough only
+      for (std::string extra : {"", "--nframes 2", "--first-frame 2", "--first-frame 2 --nframes 2", "--nframes 1", "--block-length 2", "--block-length 1 --nframes 3"}) {
+        // (--begin is exercised by the ring part only: the lammps dump reader used here does not set a frame time)
         if (extra.find("block-length") != std::string::npos && tool != 0) continue;  // block output is a csg_stat feature
         if (tool == 2 && !thorough && extra != "" && extra != "--nframes 2") continue;    // csg_reupdate runs are ~10x dearer
         if (!thorough && nt == 3 && extra != "" && extra != "--nframes 2" && extra != "--block-length 2") continue;
